@@ -306,7 +306,7 @@ OPTS = {'quick': {'time_budget': 80, 'timeout_ms': 30000}, 'thorough': {'time_bu
 
 META = {
     'explanation': "C18: add_metadata / del_metadata over every subset of table IDs (plus an unknown ID), new and overwriting keys, both axes / whole, "
-                   "with or without existing metadata -- IDs, order and every matrix value proved unchanged; `add-metadata`'s _add_metadata with header "
+                   "with or without existing metadata, with key sets that differ between ids -- IDs, order and every matrix value proved unchanged; `add-metadata`'s _add_metadata and the click callback itself (comma separated options, files opened by path; I/O stubbed) with header "
                    "overrides and per-column conversions on both axes; MetadataMap.from_file on mapping files rendered from a structured description whose "
                    "IDs and fields are SYMBOLIC strings (z3 strings under the domain: printable, no tab/newline/quote/#/;/|, no outer blanks, IDs pairwise "
                    "distinct): every strip/split/startswith/replace the parser performs on them is decided by the solver, so the parsed relation is "
